@@ -311,6 +311,9 @@ class DataflowAnalysisAttacher(Transformer):
                 defines |= self._symbols_from_expr(val, condition=lambda x: x not in dims)
             uses = defines.copy() | dims
 
+        # The launch configuration of a CUDA kernel call is read
+        uses |= self._symbols_from_expr(o.chevron or ())
+
         return self.visit_Node(o, defines_symbols=defines, uses_symbols=uses, **kwargs)
 
     def visit_Allocation(self, o, **kwargs):
